@@ -426,7 +426,7 @@ bool DOMNodeImpl::isEqualNode(const DOMNode* arg) const
 const XMLCh* DOMNodeImpl::lookupPrefix(const XMLCh* namespaceURI) const {
     // REVISIT: When Namespaces 1.1 comes out this may not be true
     // Prefix can't be bound to null namespace
-    if (namespaceURI == 0) {
+    if (namespaceURI == 0 || *namespaceURI == 0) {
         return 0;
     }
 
